@@ -26,6 +26,7 @@ type armNorm struct {
 	c      *Ctx
 	mcache map[*types.Func][]*Path
 	loops  map[*LoopRec]*LoopRec // a loop shared by several paths stays one loop
+	merged map[*LoopRec]bool     // rewritten loops whose rounds were presented as the default alone
 	next   int                   // allocation identities for inlined bodies (each inlining allocates anew)
 }
 
@@ -58,7 +59,7 @@ func (c *Ctx) kindArmNorm(paths []*Path) []*Path {
 	if c.Inv().Field == nil {
 		return paths
 	}
-	a := &armNorm{c: c, mcache: map[*types.Func][]*Path{}, loops: map[*LoopRec]*LoopRec{}}
+	a := &armNorm{c: c, mcache: map[*types.Func][]*Path{}, loops: map[*LoopRec]*LoopRec{}, merged: map[*LoopRec]bool{}}
 	return a.list(paths)
 }
 
@@ -118,6 +119,7 @@ func (a *armNorm) inner(p *Path) *Path {
 		ns := s
 		ns.Loop = &l
 		a.loops[s.Loop] = &l
+		a.merged[&l] = true
 		q.Steps[k] = ns
 	}
 	if q == nil {
@@ -173,6 +175,22 @@ func (a *armNorm) once(paths []*Path) ([]*Path, bool) {
 			return nil, false
 		}
 		return T, true
+	}
+	// tests that follow a loop on a path are the decisions of the round that left the loop, repeated at the function level: they have
+	// to stay in step with the loop's own rounds (normalised as a list of their own), so this level is left alone
+	// — unless those rounds were themselves presented as the default alone, in which case the repeated decisions go the same way
+	for _, p := range paths {
+		var last *LoopRec
+		for _, st := range p.Steps {
+			if st.Kind == "loop" {
+				last = st.Loop
+			}
+			if st.Kind == "cond" && last != nil && !a.merged[last] {
+				if _, ok := isTest(st.Cond); ok {
+					return nil, false
+				}
+			}
+		}
 	}
 	arms := map[string][]*Path{}
 	armT := map[string]types.Type{}
@@ -318,7 +336,11 @@ func (a *armNorm) sig(p *Path, X Term, W types.Type) string {
 
 var debugFlag = os.Getenv("ANYCHECK_DEBUG") != ""
 
-func debugf(f string, args ...interface{}) { fmt.Fprintf(os.Stderr, f, args...) }
+func debugf(f string, args ...interface{}) {
+	if debugFlag {
+		fmt.Fprintf(os.Stderr, f, args...)
+	}
+}
 
 func debugOn() bool { return debugFlag }
 
